@@ -7,12 +7,19 @@
 //! `.no_cache()` (CacheSink).  The same scripted, recording, possibly rejecting device and
 //! the same random history run against both.
 //!
-//! PROPERTY ORACLE (implementation vs implementation, on `Declared` graphs): every result
-//! / error class and the final device image are identical; the cached access log is the
-//! uncached log minus some successful reads; a NoCache register always reaches the device;
-//! a register's own write is visible to the next read.
+//! PROPERTY ORACLE (implementation vs implementation): every result / error class and the
+//! final device image are identical; the cached access log is the uncached log minus some
+//! successful reads; a NoCache register always reaches the device; a register's own write is
+//! visible to the next read.  Evaluated on (1) `Declared` graphs (mirror of the Lean
+//! predicate, tied through `c04 decl`), (2) the via-feature stream: needed declarations placed
+//! on the FEATURE nodes above the writer, writes only through features, classified per
+//! history by `declared_for_history`, (3) the controller stream: declared graphs with
+//! pIsImplemented / pIsAvailable / pIsLocked controllers and is_readable / is_writable
+//! queries (no model tie there: controllers are not in the model).
 //! TIE (model vs implementation): both runs are sent to `CamVerif.Model.Cache` (results,
-//! final image, full access log); the harness' `Declared` is tied to the model's.
+//! final image, full access log) for every case without controllers, declared or not.
+//! The scripted device rejects statically (ranges), by write ordinal (atomic) and
+//! NON-ATOMICALLY (`rej_p`: error after part of the data, all of it, or garbage was stored).
 
 use camharness::{hex, json, parse_args, profile, unhex, Report, Rng, Value};
 use cameleon_genapi::builder::GenApiBuilder;
@@ -62,6 +69,10 @@ enum NodeSpec {
     /// pValue, pValueCopy*
     Integer(usize, Vec<usize>),
     Command(usize, i64),
+    /// pValue, OnValue, OffValue
+    Boolean(usize, i64, i64),
+    /// pValue, entry values
+    Enumeration(usize, Vec<i64>),
 }
 
 #[derive(Clone, Debug)]
@@ -79,6 +90,7 @@ enum ValS {
     Int(i64),
     Flt(u64, u64),
     Str(Vec<u8>),
+    Bool(bool),
 }
 
 #[derive(Clone, Debug, PartialEq)]
@@ -93,11 +105,16 @@ enum Op {
     PortWrite(usize, i64, Vec<u8>),
     ClearCache,
     Address(usize),
+    /// access queries (controller stream only; not part of the model)
+    IsReadable(usize),
+    IsWritable(usize),
 }
 
 #[derive(Clone, Debug)]
 struct Case {
     nodes: Vec<NodeSpec>,
+    /// (node, [pIsImplemented, pIsAvailable, pIsLocked]) — controller stream only
+    ctls: Vec<(usize, [Option<usize>; 3])>,
     dev: DevSpec,
     ops: Vec<Op>,
 }
@@ -152,6 +169,8 @@ fn node_str(n: &NodeSpec) -> String {
         ),
         NodeSpec::Integer(pv, cs) => format!("G/{pv}/{}", list_str(cs)),
         NodeSpec::Command(pv, cv) => format!("C/{pv}/{cv}"),
+        NodeSpec::Boolean(pv, on, off) => format!("O/{pv}/{on}/{off}"),
+        NodeSpec::Enumeration(pv, vs) => format!("E/{pv}/{}", list_str(vs)),
     }
 }
 
@@ -177,6 +196,7 @@ fn val_str(v: &ValS) -> String {
         ValS::Int(i) => format!("i{i}"),
         ValS::Flt(w, b) => format!("f{w}.{b}"),
         ValS::Str(s) => format!("x{}", hex(s)),
+        ValS::Bool(b) => format!("b{}", *b as u8),
     }
 }
 
@@ -192,6 +212,8 @@ fn op_str(op: &Op) -> String {
         Op::PortWrite(n, a, d) => format!("pw/{n}/{a}/{}", hex(d)),
         Op::ClearCache => "cc".into(),
         Op::Address(n) => format!("a/{n}"),
+        Op::IsReadable(n) => format!("ir/{n}"),
+        Op::IsWritable(n) => format!("iw/{n}"),
     }
 }
 
@@ -234,6 +256,8 @@ fn p_node(s: &str, group: Option<usize>) -> NodeSpec {
         "P" => NodeSpec::Port,
         "G" => NodeSpec::Integer(f[1].parse().unwrap(), p_list(f.get(2).copied().unwrap_or("-"), ',', |x| x.parse().unwrap())),
         "C" => NodeSpec::Command(f[1].parse().unwrap(), f[2].parse().unwrap()),
+        "O" => NodeSpec::Boolean(f[1].parse().unwrap(), f[2].parse().unwrap(), f[3].parse().unwrap()),
+        "E" => NodeSpec::Enumeration(f[1].parse().unwrap(), p_list(f[2], ',', |x| x.parse().unwrap())),
         "R" => NodeSpec::Reg(RegSpec {
             kind: p_kind(f[1]),
             base: f[2].parse().unwrap(),
@@ -281,6 +305,7 @@ fn p_dev(s: &str) -> DevSpec {
 fn p_val(s: &str) -> ValS {
     match &s[..1] {
         "i" => ValS::Int(s[1..].parse().unwrap()),
+        "b" => ValS::Bool(&s[1..] == "1"),
         "f" => {
             let (w, b) = s[1..].split_once('.').unwrap();
             ValS::Flt(w.parse().unwrap(), b.parse().unwrap())
@@ -302,6 +327,8 @@ fn p_op(s: &str) -> Op {
         "pw" => Op::PortWrite(f[1].parse().unwrap(), f[2].parse().unwrap(), unhex(f[3])),
         "cc" => Op::ClearCache,
         "a" => Op::Address(f[1].parse().unwrap()),
+        "ir" => Op::IsReadable(f[1].parse().unwrap()),
+        "iw" => Op::IsWritable(f[1].parse().unwrap()),
         _ => panic!("bad op {s}"),
     }
 }
@@ -315,13 +342,22 @@ fn case_to_json(c: &Case) -> Value {
             _ => Value::Null,
         })
         .collect();
-    json!({"graph": graph_str(&c.nodes), "groups": groups, "dev": dev_str(&c.dev), "ops": ops_str(&c.ops)})
+    let ctls: Vec<Value> = c.ctls.iter().map(|(n, k)| json!([n, k[0], k[1], k[2]])).collect();
+    json!({"graph": graph_str(&c.nodes), "groups": groups, "ctls": ctls, "dev": dev_str(&c.dev), "ops": ops_str(&c.ops)})
 }
 
 fn case_from_json(v: &Value) -> Case {
     let groups: Vec<Option<usize>> = v["groups"].as_array().map_or(vec![], |a| a.iter().map(|g| g.as_u64().map(|x| x as usize)).collect());
     let nodes = v["graph"].as_str().unwrap().split(';').enumerate().map(|(i, s)| p_node(s, groups.get(i).copied().flatten())).collect();
-    Case { nodes, dev: p_dev(v["dev"].as_str().unwrap()), ops: p_list(v["ops"].as_str().unwrap(), ';', p_op) }
+    let ctls = v["ctls"].as_array().map_or(vec![], |a| {
+        a.iter()
+            .map(|e| {
+                let g = |i: usize| e[i].as_u64().map(|x| x as usize);
+                (g(0).unwrap(), [g(1), g(2), g(3)])
+            })
+            .collect()
+    });
+    Case { nodes, ctls, dev: p_dev(v["dev"].as_str().unwrap()), ops: p_list(v["ops"].as_str().unwrap(), ';', p_op) }
 }
 
 // ---------------------------------------------------------------- XML rendering
@@ -360,20 +396,39 @@ fn sign_xml(signed: bool) -> &'static str {
     }
 }
 
-fn xml_of(nodes: &[NodeSpec]) -> String {
+fn xml_of(nodes: &[NodeSpec], ctls: &[(usize, [Option<usize>; 3])]) -> String {
+    let ctl = |i: usize| -> String {
+        let mut t = String::new();
+        if let Some((_, k)) = ctls.iter().find(|c| c.0 == i) {
+            for (tag, v) in ["pIsImplemented", "pIsAvailable", "pIsLocked"].iter().zip(k.iter()) {
+                if let Some(x) = v {
+                    t += &format!("<{tag}>N{x}</{tag}>");
+                }
+            }
+        }
+        t
+    };
     let mut s = String::from(XML_HEAD);
     let mut done_groups: Vec<usize> = vec![];
     for (i, n) in nodes.iter().enumerate() {
         match n {
             NodeSpec::Port => s += &format!("<Port Name=\"N{i}\"></Port>\n"),
+            NodeSpec::Boolean(pv, on, off) => s += &format!("<Boolean Name=\"N{i}\">{}<pValue>N{pv}</pValue><OnValue>{on}</OnValue><OffValue>{off}</OffValue></Boolean>\n", ctl(i)),
+            NodeSpec::Enumeration(pv, vs) => {
+                s += &format!("<Enumeration Name=\"N{i}\">{}", ctl(i));
+                for (k, v) in vs.iter().enumerate() {
+                    s += &format!("<EnumEntry Name=\"E{k}\"><Value>{v}</Value></EnumEntry>");
+                }
+                s += &format!("<pValue>N{pv}</pValue></Enumeration>\n");
+            }
             NodeSpec::Integer(pv, cs) => {
-                s += &format!("<Integer Name=\"N{i}\"><pValue>N{pv}</pValue>");
+                s += &format!("<Integer Name=\"N{i}\">{}<pValue>N{pv}</pValue>", ctl(i));
                 for c in cs {
                     s += &format!("<pValueCopy>N{c}</pValueCopy>");
                 }
                 s += "</Integer>\n";
             }
-            NodeSpec::Command(pv, cv) => s += &format!("<Command Name=\"N{i}\"><pValue>N{pv}</pValue><CommandValue>{cv}</CommandValue></Command>\n"),
+            NodeSpec::Command(pv, cv) => s += &format!("<Command Name=\"N{i}\">{}<pValue>N{pv}</pValue><CommandValue>{cv}</CommandValue></Command>\n", ctl(i)),
             NodeSpec::Reg(r) => {
                 if let Some(gid) = r.group {
                     if done_groups.contains(&gid) {
@@ -406,7 +461,7 @@ fn xml_of(nodes: &[NodeSpec]) -> String {
                     Kind::Str => "StringReg",
                     Kind::Raw => "Register",
                 };
-                s += &format!("<{tag} Name=\"N{i}\">{}<Length>{}</Length><AccessMode>{:?}</AccessMode><pPort>N{}</pPort><Cachable>{}</Cachable>", addr_xml(r), r.len, r.acc, r.port, mode_xml(r.mode));
+                s += &format!("<{tag} Name=\"N{i}\">{}{}<Length>{}</Length><AccessMode>{:?}</AccessMode><pPort>N{}</pPort><Cachable>{}</Cachable>", ctl(i), addr_xml(r), r.len, r.acc, r.port, mode_xml(r.mode));
                 for inv in &r.invs {
                     s += &format!("<pInvalidator>N{inv}</pInvalidator>");
                 }
@@ -603,6 +658,10 @@ fn run_op<S: CacheStore>(nodes: &[NodeSpec], ids: &[NodeId], store: &DefaultNode
                     }
                 } else if let Some(s) = nid.as_istring_kind(store) {
                     Out::Str(s.value(dev, store, cx)?)
+                } else if let Some(e) = nid.as_ienumeration_kind(store) {
+                    Out::Int(e.current_value(dev, store, cx)?)
+                } else if let Some(b) = nid.as_iboolean_kind(store) {
+                    Out::Bool(b.value(dev, store, cx)?)
                 } else {
                     return Err(invalid_node());
                 }
@@ -610,7 +669,14 @@ fn run_op<S: CacheStore>(nodes: &[NodeSpec], ids: &[NodeId], store: &DefaultNode
             Op::SetValue(n, v) => {
                 let nid = ids[*n];
                 match v {
-                    ValS::Int(i) => nid.as_iinteger_kind(store).ok_or_else(invalid_node)?.set_value(*i, dev, store, cx)?,
+                    ValS::Int(i) => {
+                        if let Some(n) = nid.as_iinteger_kind(store) {
+                            n.set_value(*i, dev, store, cx)?
+                        } else {
+                            nid.as_ienumeration_kind(store).ok_or_else(invalid_node)?.set_entry_by_value(*i, dev, store, cx)?
+                        }
+                    }
+                    ValS::Bool(b) => nid.as_iboolean_kind(store).ok_or_else(invalid_node)?.set_value(*b, dev, store, cx)?,
                     ValS::Flt(w, b) => {
                         let f = if *w == 4 { f32::from_bits(*b as u32) as f64 } else { f64::from_bits(*b) };
                         nid.as_ifloat_kind(store).ok_or_else(invalid_node)?.set_value(f, dev, store, cx)?
@@ -647,6 +713,40 @@ fn run_op<S: CacheStore>(nodes: &[NodeSpec], ids: &[NodeId], store: &DefaultNode
                 Out::Unit
             }
             Op::Address(n) => Out::Int(ids[*n].as_iregister_kind(store).ok_or_else(invalid_node)?.address(dev, store, cx)?),
+            Op::IsReadable(n) => {
+                let nid = ids[*n];
+                Out::Bool(if let Some(x) = nid.as_iinteger_kind(store) {
+                    x.is_readable(dev, store, cx)?
+                } else if let Some(x) = nid.as_ifloat_kind(store) {
+                    x.is_readable(dev, store, cx)?
+                } else if let Some(x) = nid.as_istring_kind(store) {
+                    x.is_readable(dev, store, cx)?
+                } else if let Some(x) = nid.as_ienumeration_kind(store) {
+                    x.is_readable(dev, store, cx)?
+                } else if let Some(x) = nid.as_iboolean_kind(store) {
+                    x.is_readable(dev, store, cx)?
+                } else {
+                    return Err(invalid_node());
+                })
+            }
+            Op::IsWritable(n) => {
+                let nid = ids[*n];
+                Out::Bool(if let Some(x) = nid.as_iinteger_kind(store) {
+                    x.is_writable(dev, store, cx)?
+                } else if let Some(x) = nid.as_ifloat_kind(store) {
+                    x.is_writable(dev, store, cx)?
+                } else if let Some(x) = nid.as_istring_kind(store) {
+                    x.is_writable(dev, store, cx)?
+                } else if let Some(x) = nid.as_ienumeration_kind(store) {
+                    x.is_writable(dev, store, cx)?
+                } else if let Some(x) = nid.as_iboolean_kind(store) {
+                    x.is_writable(dev, store, cx)?
+                } else if let Some(x) = nid.as_icommand_kind(store) {
+                    x.is_writable(dev, store, cx)?
+                } else {
+                    return Err(invalid_node());
+                })
+            }
         })
     });
     match r {
@@ -769,7 +869,7 @@ fn port_declared(nodes: &[NodeSpec], pn: usize) -> bool {
 // ---------------------------------------------------------------- generator
 
 fn int_kind(n: &NodeSpec) -> bool {
-    matches!(n, NodeSpec::Reg(RegSpec { kind: Kind::Int { .. } | Kind::Masked { .. }, .. }) | NodeSpec::Integer(..))
+    matches!(n, NodeSpec::Reg(RegSpec { kind: Kind::Int { .. } | Kind::Masked { .. }, .. }) | NodeSpec::Integer(..) | NodeSpec::Enumeration(..))
 }
 
 /// any node except a FloatReg: `NodeId::value::<i64>` on a float node converts `f64 as i64`,
@@ -812,7 +912,131 @@ fn gen_masked_bits(rng: &mut Rng, len: u64, be: bool) -> (u64, u64) {
     }
 }
 
-fn gen_case(rng: &mut Rng, undeclared: bool, thorough: bool) -> Case {
+#[derive(Clone, Copy, PartialEq, Eq, Debug)]
+enum Stream {
+    /// every needed (writer, cached target) pair lists the writer or its port
+    Declared,
+    /// some needed declarations dropped (tie only)
+    Undeclared,
+    /// needed declarations placed on the FEATURE nodes above the writer; writes only through features
+    Via,
+    /// declared graph plus pIsImplemented / pIsAvailable / pIsLocked controllers and is_* queries
+    /// (implementation-vs-implementation only: controllers are not in the model)
+    Ctl,
+}
+
+fn is_feature(n: &NodeSpec) -> bool {
+    matches!(n, NodeSpec::Integer(..) | NodeSpec::Command(..) | NodeSpec::Boolean(..) | NodeSpec::Enumeration(..))
+}
+
+/// nodes a feature forwards a write to
+fn children(n: &NodeSpec) -> Vec<usize> {
+    match n {
+        NodeSpec::Integer(pv, cs) => std::iter::once(*pv).chain(cs.iter().copied()).collect(),
+        NodeSpec::Command(pv, _) | NodeSpec::Boolean(pv, ..) | NodeSpec::Enumeration(pv, _) => vec![*pv],
+        _ => vec![],
+    }
+}
+
+/// registers a write entering at `e` can reach
+fn reach_regs(nodes: &[NodeSpec], e: usize, depth: usize, out: &mut Vec<usize>) {
+    if depth == 0 || e >= nodes.len() {
+        return;
+    }
+    match &nodes[e] {
+        NodeSpec::Reg(_) => {
+            if !out.contains(&e) {
+                out.push(e)
+            }
+        }
+        n => {
+            for c in children(n) {
+                reach_regs(nodes, c, depth - 1, out)
+            }
+        }
+    }
+}
+
+/// registers read while evaluating node `n` as an integer (selector cones)
+fn read_cone(nodes: &[NodeSpec], n: usize, depth: usize, out: &mut Vec<usize>) {
+    if depth == 0 || n >= nodes.len() {
+        return;
+    }
+    match &nodes[n] {
+        NodeSpec::Reg(r) => {
+            if !out.contains(&n) {
+                out.push(n);
+            }
+            if let Some((s, _)) = r.sel {
+                read_cone(nodes, s, depth - 1, out)
+            }
+        }
+        NodeSpec::Integer(pv, _) | NodeSpec::Enumeration(pv, _) => read_cone(nodes, *pv, depth - 1, out),
+        _ => {}
+    }
+}
+
+/// every path from `x` down to register `w` passes a node of `invs` (other than `w`)
+fn paths_covered(nodes: &[NodeSpec], x: usize, w: usize, invs: &[usize], depth: usize) -> bool {
+    if depth == 0 || x >= nodes.len() {
+        return false;
+    }
+    match &nodes[x] {
+        NodeSpec::Reg(_) => x != w,
+        n if is_feature(n) => invs.contains(&x) || children(n).iter().all(|c| paths_covered(nodes, *c, w, invs, depth - 1)),
+        _ => true,
+    }
+}
+
+/// entry node of a writing operation
+fn write_entry(op: &Op) -> Option<usize> {
+    match op {
+        Op::SetValue(n, _) | Op::Execute(n) | Op::Write(n, _) => Some(*n),
+        _ => None,
+    }
+}
+
+/// `Declared` in the wider sense of DESIGN 5/C04(i): a needed pair may instead list "the
+/// writing node on the path" — for THIS history: every writing operation that can reach `w`
+/// passes, on every path, a feature node listed by `t` (whose `set_value`/`execute` runs
+/// `invalidate_cache_by(self)` first), and the operation touches `t` in no other way
+/// (so nothing re-populates `t` between that invalidation and the write).
+fn declared_for_history(nodes: &[NodeSpec], ops: &[Op]) -> (bool, bool) {
+    let d = nodes.len() + 2;
+    let mut plain = true;
+    for (w, t) in needed_pairs(nodes) {
+        let (rw, rt) = match (&nodes[w], &nodes[t]) {
+            (NodeSpec::Reg(rw), NodeSpec::Reg(rt)) => (rw, rt),
+            _ => continue,
+        };
+        if rt.invs.contains(&w) || rt.invs.contains(&rw.port) {
+            continue;
+        }
+        plain = false;
+        for e in ops.iter().filter_map(write_entry) {
+            let mut regs = vec![];
+            reach_regs(nodes, e, d, &mut regs);
+            if !regs.contains(&w) {
+                continue;
+            }
+            if !paths_covered(nodes, e, w, &rt.invs, d) {
+                return (false, false);
+            }
+            // footprint of the operation: everything it writes, and everything read for the addresses
+            let mut touched = vec![];
+            for r in &regs {
+                read_cone(nodes, *r, d, &mut touched);
+            }
+            if touched.contains(&t) {
+                return (false, false);
+            }
+        }
+    }
+    (plain, true)
+}
+
+fn gen_case(rng: &mut Rng, stream: Stream, thorough: bool) -> Case {
+    let undeclared = stream == Stream::Undeclared;
     let n_mem = rng.range(12, 40) as usize;
     let mut mem = rng.bytes(n_mem);
     if rng.chance(1, 6) {
@@ -821,6 +1045,11 @@ fn gen_case(rng: &mut Rng, undeclared: bool, thorough: bool) -> Case {
         }
     }
     let mut nodes = vec![NodeSpec::Port];
+    let mut ports = vec![0usize];
+    if rng.chance(1, 3) {
+        ports.push(nodes.len());
+        nodes.push(NodeSpec::Port);
+    }
     let anchors: Vec<i64> = (0..3).map(|_| rng.below(n_mem as u64 - 4) as i64).collect();
     let place = |rng: &mut Rng, len: u64| -> i64 {
         match rng.below(20) {
@@ -830,22 +1059,32 @@ fn gen_case(rng: &mut Rng, undeclared: bool, thorough: bool) -> Case {
             _ => rng.below((n_mem as u64).saturating_sub(len) + 1) as i64,
         }
     };
-    // selectors
+    let pick_port = |rng: &mut Rng, ports: &[usize]| -> usize { *rng.pick(ports) };
+    // selectors: plain IntRegs, Integer features over them, selector-addressed selectors
     let n_sel = rng.below(3) as usize;
     let mut selectors = vec![];
-    for _ in 0..n_sel {
+    for k in 0..n_sel {
         let len = if rng.chance(1, 5) { 2 } else { 1 };
         let base = rng.below(n_mem as u64 - len) as i64;
         let be = rng.bool();
         for k in 0..len as usize {
             mem[base as usize + k] = 0;
         }
-        // small selector value
-        let v = rng.below(4) as u8;
+        // mostly small selector values, sometimes anything the register can hold
+        let v = if rng.chance(1, 6) { rng.next_u64() as u8 } else { rng.below(4) as u8 };
         let pos = if be { base as usize + len as usize - 1 } else { base as usize };
         mem[pos] = v;
-        selectors.push(nodes.len());
-        nodes.push(NodeSpec::Reg(RegSpec { kind: Kind::Int { be, signed: rng.chance(1, 5) }, base, sel: None, len, mode: gen_mode(rng), acc: Acc::RW, invs: vec![], port: 0, group: None }));
+        // a selector that is itself selector-addressed (by an earlier selector)
+        let sel = if k > 0 && rng.chance(1, 4) { Some((selectors[0], *rng.pick(&[1i64, 1, 2, -1]))) } else { None };
+        let reg = nodes.len();
+        nodes.push(NodeSpec::Reg(RegSpec { kind: Kind::Int { be, signed: rng.chance(1, 5) }, base, sel, len, mode: gen_mode(rng), acc: Acc::RW, invs: vec![], port: pick_port(rng, &ports), group: None }));
+        if rng.chance(1, 4) {
+            // the selector used by registers is an Integer feature over the register
+            selectors.push(nodes.len());
+            nodes.push(NodeSpec::Integer(reg, vec![]));
+        } else {
+            selectors.push(reg);
+        }
     }
     let gen_sel = |rng: &mut Rng, selectors: &[usize], len: u64| -> Option<(usize, i64)> {
         if selectors.is_empty() || !rng.chance(3, 10) {
@@ -884,7 +1123,9 @@ fn gen_case(rng: &mut Rng, undeclared: bool, thorough: bool) -> Case {
         };
         let base = place(rng, len);
         let sel = gen_sel(rng, &selectors, len);
-        nodes.push(NodeSpec::Reg(RegSpec { kind, base, sel, len, mode: gen_mode(rng), acc: gen_acc(rng), invs: vec![], port: 0, group: None }));
+        // rarely pPort names a node that is not a port (every access: InvalidNode)
+        let port = if rng.chance(1, 40) && nodes.len() > 2 { nodes.len() - 1 } else { pick_port(rng, &ports) };
+        nodes.push(NodeSpec::Reg(RegSpec { kind, base, sel, len, mode: gen_mode(rng), acc: gen_acc(rng), invs: vec![], port, group: None }));
     }
     // struct groups
     let n_groups = if rng.chance(1, 2) { rng.range(1, 2) } else { 0 };
@@ -893,57 +1134,124 @@ fn gen_case(rng: &mut Rng, undeclared: bool, thorough: bool) -> Case {
         let be = rng.bool();
         let base = place(rng, len);
         let sel = if rng.chance(1, 4) { gen_sel(rng, &selectors, len) } else { None };
+        let port = pick_port(rng, &ports);
         for _ in 0..rng.range(2, 3) {
             let (lsb, msb) = gen_masked_bits(rng, len, be);
-            nodes.push(NodeSpec::Reg(RegSpec { kind: Kind::Masked { be, signed: rng.chance(1, 3), lsb, msb }, base, sel, len, mode: gen_mode(rng), acc: gen_acc(rng), invs: vec![], port: 0, group: Some(gid) }));
+            nodes.push(NodeSpec::Reg(RegSpec { kind: Kind::Masked { be, signed: rng.chance(1, 3), lsb, msb }, base, sel, len, mode: gen_mode(rng), acc: gen_acc(rng), invs: vec![], port, group: Some(gid) }));
         }
     }
-    // features
-    for _ in 0..rng.below(4) {
+    // features: Integer (pValue, pValueCopy*), Boolean, Enumeration, Command
+    let n_feat = if stream == Stream::Via { rng.range(2, 6) } else { rng.below(6) };
+    for _ in 0..n_feat {
         let cands: Vec<usize> = (0..nodes.len()).filter(|i| int_kind(&nodes[*i])).collect();
         let pv = if cands.is_empty() || rng.chance(1, 15) { pick_non_float(rng, &nodes) } else { *rng.pick(&cands) };
-        let mut copies = vec![];
-        if !cands.is_empty() && rng.chance(1, 3) {
-            for _ in 0..rng.range(1, 2) {
-                copies.push(if rng.chance(1, 12) { pick_non_float(rng, &nodes) } else { *rng.pick(&cands) });
+        match rng.below(10) {
+            0..=4 => {
+                let mut copies = vec![];
+                if !cands.is_empty() && rng.chance(1, 3) {
+                    for _ in 0..rng.range(1, 2) {
+                        copies.push(if rng.chance(1, 12) { pick_non_float(rng, &nodes) } else { *rng.pick(&cands) });
+                    }
+                }
+                nodes.push(NodeSpec::Integer(pv, copies));
             }
+            5..=6 => {
+                let (on, off) = if rng.bool() { (1, 0) } else { (rng.below(6) as i64, 6 + rng.below(6) as i64) };
+                nodes.push(NodeSpec::Boolean(pv, on, off));
+            }
+            7..=8 => {
+                let mut vs: Vec<i64> = (0..rng.range(2, 4)).map(|_| rng.below(8) as i64).collect();
+                vs.dedup();
+                nodes.push(NodeSpec::Enumeration(pv, vs));
+            }
+            _ => nodes.push(NodeSpec::Command(pv, rng.below(200) as i64)),
         }
-        nodes.push(NodeSpec::Integer(pv, copies));
     }
-    for _ in 0..rng.below(3) {
+    if rng.chance(1, 2) {
         let cands: Vec<usize> = (0..nodes.len()).filter(|i| int_kind(&nodes[*i])).collect();
-        let pv = if cands.is_empty() || rng.chance(1, 15) { pick_non_float(rng, &nodes) } else { *rng.pick(&cands) };
+        let pv = if cands.is_empty() { pick_non_float(rng, &nodes) } else { *rng.pick(&cands) };
         nodes.push(NodeSpec::Command(pv, rng.below(200) as i64));
     }
     // pInvalidator declarations
     let port_everywhere = rng.chance(1, 5);
     let needed = needed_pairs(&nodes);
-    let mut dropped = false;
+    let depth = nodes.len() + 2;
     for (w, t) in &needed {
-        let drop = undeclared && rng.chance(2, 5);
-        dropped |= drop;
-        if drop {
+        if undeclared && rng.chance(2, 5) {
             continue;
         }
-        let via_port = rng.chance(1, 4);
+        let wport = match &nodes[*w] {
+            NodeSpec::Reg(r) => r.port,
+            _ => 0,
+        };
+        // features above the writer (for the via-feature stream)
+        let above: Vec<usize> = (0..nodes.len())
+            .filter(|f| is_feature(&nodes[*f]) && {
+                let mut rs = vec![];
+                reach_regs(&nodes, *f, depth, &mut rs);
+                rs.contains(w)
+            })
+            .collect();
+        let add: Vec<usize> = if stream == Stream::Via && !above.is_empty() && rng.chance(4, 5) {
+            if rng.chance(3, 4) {
+                above.clone()
+            } else {
+                above.iter().copied().filter(|_| rng.bool()).collect()
+            }
+        } else if rng.chance(1, 4) {
+            vec![wport]
+        } else {
+            vec![*w]
+        };
         if let NodeSpec::Reg(rt) = &mut nodes[*t] {
-            let x = if via_port { 0 } else { *w };
-            if !rt.invs.contains(&x) {
-                rt.invs.push(x);
+            for x in add {
+                if !rt.invs.contains(&x) {
+                    rt.invs.push(x);
+                }
             }
         }
     }
-    let _ = dropped;
     let n_nodes = nodes.len();
     for n in nodes.iter_mut() {
         if let NodeSpec::Reg(r) = n {
-            if port_everywhere && r.mode != Mode::NC && !r.invs.contains(&0) && !(undeclared && rng.chance(1, 3)) {
-                r.invs.push(0);
+            if port_everywhere && r.mode != Mode::NC && !(undeclared && rng.chance(1, 3)) {
+                for p in &ports {
+                    if !r.invs.contains(p) {
+                        r.invs.push(*p);
+                    }
+                }
             }
             if rng.chance(1, 6) {
                 let x = rng.below(n_nodes as u64) as usize;
                 if !r.invs.contains(&x) {
                     r.invs.push(x);
+                }
+            }
+        }
+    }
+    // controllers (Ctl stream): pIsImplemented / pIsAvailable / pIsLocked -> integer-valued or Boolean nodes
+    let mut ctls = vec![];
+    if stream == Stream::Ctl {
+        let ctl_targets: Vec<usize> = (0..nodes.len()).filter(|i| int_kind(&nodes[*i]) || matches!(nodes[*i], NodeSpec::Boolean(..))).collect();
+        if !ctl_targets.is_empty() {
+            for i in 0..nodes.len() {
+                let gated = match &nodes[i] {
+                    NodeSpec::Reg(r) => r.group.is_none(),
+                    n => is_feature(n),
+                };
+                if gated && rng.chance(1, 2) {
+                    let mut k = [None, None, None];
+                    for slot in k.iter_mut() {
+                        if rng.chance(2, 5) {
+                            let c = *rng.pick(&ctl_targets);
+                            if c != i {
+                                *slot = Some(c);
+                            }
+                        }
+                    }
+                    if k.iter().any(|x| x.is_some()) {
+                        ctls.push((i, k));
+                    }
                 }
             }
         }
@@ -980,34 +1288,49 @@ fn gen_case(rng: &mut Rng, undeclared: bool, thorough: bool) -> Case {
     let n_ops = rng.range(6, if thorough { 70 } else { 36 }) as usize;
     let regs: Vec<usize> = (0..nodes.len()).filter(|i| matches!(nodes[*i], NodeSpec::Reg(_))).collect();
     let cmds: Vec<usize> = (0..nodes.len()).filter(|i| matches!(nodes[*i], NodeSpec::Command(..))).collect();
+    let feats: Vec<usize> = (0..nodes.len()).filter(|i| is_feature(&nodes[*i]) && !matches!(nodes[*i], NodeSpec::Command(..))).collect();
     let mut valued: Vec<usize> = (0..nodes.len()).filter(|i| !matches!(nodes[*i], NodeSpec::Port | NodeSpec::Command(..) | NodeSpec::Reg(RegSpec { kind: Kind::Raw, .. }))).collect();
     if valued.is_empty() {
         valued = regs.clone();
     }
-    let allow_port_write = port_declared(&nodes, 0) || undeclared || rng.chance(1, 10);
+    // in the via-feature stream writes enter through features only
+    let writable: Vec<usize> = if stream == Stream::Via && !feats.is_empty() { feats.clone() } else { valued.clone() };
+    let direct_writes = stream != Stream::Via;
+    let wport = *rng.pick(&ports);
+    let allow_port_write = direct_writes && (port_declared(&nodes, wport) || undeclared || rng.chance(1, 10));
     let mut ops = vec![];
     while ops.len() < n_ops {
         match rng.below(100) {
-            0..=29 => ops.push(gen_value(rng, &nodes, &valued)),
-            30..=51 => ops.push(gen_set(rng, &nodes, &valued)),
+            0..=15 => ops.push(gen_value(rng, &nodes, &valued)),
+            16..=27 if stream != Stream::Ctl => ops.push(gen_value(rng, &nodes, &valued)),
+            16..=29 if stream == Stream::Ctl => {
+                let n = if !ctls.is_empty() && rng.chance(3, 4) { rng.pick(&ctls).0 } else { rng.below(nodes.len() as u64) as usize };
+                ops.push(if rng.bool() { Op::IsReadable(n) } else { Op::IsWritable(n) });
+            }
+            30..=51 => ops.push(gen_set(rng, &nodes, &writable)),
             52..=58 => {
                 let n = *rng.pick(&regs);
                 ops.push(gen_read(rng, &nodes, n));
             }
-            59..=67 => {
+            59..=67 if direct_writes => {
                 let n = *rng.pick(&regs);
                 ops.push(gen_write(rng, &nodes, n));
             }
+            59..=67 if stream == Stream::Ctl || !cmds.is_empty() => {
+                if !cmds.is_empty() {
+                    ops.push(Op::Execute(*rng.pick(&cmds)))
+                }
+            }
             68..=72 if !cmds.is_empty() => ops.push(Op::Execute(*rng.pick(&cmds))),
             73..=76 if !cmds.is_empty() => ops.push(Op::IsDone(*rng.pick(&cmds))),
-            77..=78 => ops.push(Op::PortRead(0, rng.below(n_mem as u64 + 2) as i64 - 1, rng.range(0, 4) as usize)),
+            77..=78 => ops.push(Op::PortRead(*rng.pick(&ports), rng.below(n_mem as u64 + 2) as i64 - 1, rng.range(0, 4) as usize)),
             79..=81 if allow_port_write => {
                 let l = rng.range(1, 4) as usize;
-                ops.push(Op::PortWrite(0, rng.below(n_mem as u64) as i64, rng.bytes(l)));
+                ops.push(Op::PortWrite(wport, rng.below(n_mem as u64) as i64, rng.bytes(l)));
             }
             82 => ops.push(Op::ClearCache),
             83 => ops.push(Op::Address(*rng.pick(&regs))),
-            84 | 96 | 97 => {
+            84 | 96 | 97 if direct_writes => {
                 // selector switching: the same register read at two addresses, interleaved
                 let sel_regs: Vec<usize> = regs.iter().copied().filter(|i| matches!(&nodes[*i], NodeSpec::Reg(r) if r.sel.is_some())).collect();
                 if let Some(&rn) = sel_regs.get(rng.below(sel_regs.len().max(1) as u64) as usize) {
@@ -1016,7 +1339,9 @@ fn gen_case(rng: &mut Rng, undeclared: bool, thorough: bool) -> Case {
                         _ => unreachable!(),
                     };
                     let read = |rng: &mut Rng| if valued.contains(&rn) && rng.chance(2, 3) { Op::Value(rn) } else { gen_read(rng, &nodes, rn) };
-                    let (k1, k2) = (rng.below(4) as i64, rng.below(4) as i64);
+                    let big = rng.chance(1, 8);
+                    let mut k = |rng: &mut Rng| if big { rng.below(256) as i64 } else { rng.below(4) as i64 };
+                    let (k1, k2) = (k(rng), k(rng));
                     ops.push(Op::SetValue(sn, ValS::Int(k1)));
                     ops.push(read(rng));
                     ops.push(Op::SetValue(sn, ValS::Int(k2)));
@@ -1028,12 +1353,33 @@ fn gen_case(rng: &mut Rng, undeclared: bool, thorough: bool) -> Case {
                     ops.push(read(rng));
                 }
             }
+            85..=92 if stream == Stream::Via => {
+                // read a register that lists a feature, write through that feature, read again
+                let cand: Vec<(usize, usize)> = regs
+                    .iter()
+                    .flat_map(|t| match &nodes[*t] {
+                        NodeSpec::Reg(r) if r.mode != Mode::NC => r.invs.iter().filter(|f| nodes.get(**f).map_or(false, is_feature)).map(|f| (*t, *f)).collect::<Vec<_>>(),
+                        _ => vec![],
+                    })
+                    .collect();
+                if !cand.is_empty() {
+                    let (t, f) = *rng.pick(&cand);
+                    let rd = |rng: &mut Rng| if valued.contains(&t) { Op::Value(t) } else { gen_read(rng, &nodes, t) };
+                    ops.push(rd(rng));
+                    ops.push(if matches!(nodes[f], NodeSpec::Command(..)) { Op::Execute(f) } else { gen_set_on(rng, &nodes, f) });
+                    ops.push(rd(rng));
+                }
+            }
             85..=95 => {
-                // (read A, write B, read A) with B = A or another register
+                // (read A, write B, read A) with B = A or another node
                 let a = *rng.pick(&valued);
-                let b = if rng.chance(1, 3) { a } else { *rng.pick(&regs) };
+                let b = if direct_writes {
+                    if rng.chance(1, 3) { a } else { *rng.pick(&regs) }
+                } else {
+                    *rng.pick(&writable)
+                };
                 ops.push(Op::Value(a));
-                if matches!(nodes[b], NodeSpec::Reg(RegSpec { kind: Kind::Raw, .. })) || rng.chance(1, 3) {
+                if direct_writes && (matches!(nodes[b], NodeSpec::Reg(RegSpec { kind: Kind::Raw, .. })) || rng.chance(1, 3)) {
                     if matches!(nodes[b], NodeSpec::Reg(_)) {
                         ops.push(gen_write(rng, &nodes, b));
                     }
@@ -1049,12 +1395,13 @@ fn gen_case(rng: &mut Rng, undeclared: bool, thorough: bool) -> Case {
                     0 => Op::Value(n),
                     1 => Op::Execute(n),
                     2 => Op::Read(n, 2),
-                    _ => Op::SetValue(n, ValS::Int(1)),
+                    _ if direct_writes => Op::SetValue(n, ValS::Int(1)),
+                    _ => Op::Value(n),
                 });
             }
         }
     }
-    Case { nodes, dev, ops }
+    Case { nodes, ctls, dev, ops }
 }
 
 fn gen_value(rng: &mut Rng, _nodes: &[NodeSpec], valued: &[usize]) -> Op {
@@ -1071,7 +1418,7 @@ fn resolve<'a>(nodes: &'a [NodeSpec], mut n: usize) -> Option<&'a RegSpec> {
     for _ in 0..nodes.len() + 1 {
         match &nodes[n] {
             NodeSpec::Reg(r) => return Some(r),
-            NodeSpec::Integer(pv, _) => n = *pv,
+            NodeSpec::Integer(pv, _) | NodeSpec::Boolean(pv, ..) | NodeSpec::Enumeration(pv, _) => n = *pv,
             _ => return None,
         }
     }
@@ -1098,6 +1445,11 @@ fn int_range(r: &RegSpec) -> Option<(i128, i128)> {
 }
 
 fn gen_set_on(rng: &mut Rng, nodes: &[NodeSpec], n: usize) -> Op {
+    match &nodes[n] {
+        NodeSpec::Boolean(..) => return Op::SetValue(n, ValS::Bool(rng.bool())),
+        NodeSpec::Enumeration(_, vs) if !vs.is_empty() && !rng.chance(1, 8) => return Op::SetValue(n, ValS::Int(*rng.pick(vs))),
+        _ => {}
+    }
     let r = resolve(nodes, n);
     let v = match r.map(|r| (&r.kind, r)) {
         Some((Kind::Float { .. }, r)) if matches!(nodes[n], NodeSpec::Reg(_)) => {
@@ -1194,6 +1546,24 @@ fn classify_graph(nodes: &[NodeSpec]) -> Vec<&'static str> {
     if nodes.iter().any(|n| matches!(n, NodeSpec::Command(..))) {
         v.push("graph:command");
     }
+    if nodes.iter().any(|n| matches!(n, NodeSpec::Boolean(..))) {
+        v.push("graph:boolean");
+    }
+    if nodes.iter().any(|n| matches!(n, NodeSpec::Enumeration(..))) {
+        v.push("graph:enumeration");
+    }
+    if nodes.iter().filter(|n| matches!(n, NodeSpec::Port)).count() > 1 {
+        v.push("graph:two-ports");
+    }
+    if regs.iter().any(|(_, r)| !matches!(nodes.get(r.port), Some(NodeSpec::Port))) {
+        v.push("graph:pPort-not-a-port");
+    }
+    if regs.iter().any(|(_, r)| r.sel.map_or(false, |(s, _)| matches!(nodes.get(s), Some(NodeSpec::Integer(..))))) {
+        v.push("graph:selector-is-integer-feature");
+    }
+    if regs.iter().any(|(_, r)| r.sel.map_or(false, |(s, _)| matches!(nodes.get(s), Some(NodeSpec::Reg(q)) if q.sel.is_some()))) {
+        v.push("graph:selector-itself-selector-addressed");
+    }
     if regs.iter().any(|(i, r)| regs.iter().any(|(j, q)| i != j && r.sel.is_none() && q.sel.is_none() && overlaps(r.base as i128, r.len as i128, q.base as i128, q.len as i128))) {
         v.push("graph:static-overlap");
     }
@@ -1206,7 +1576,7 @@ fn classify_graph(nodes: &[NodeSpec]) -> Vec<&'static str> {
 }
 
 fn do_case(rep: &mut Report, case: &Case, src: &str, replay: Value) {
-    let xml = xml_of(&case.nodes);
+    let xml = xml_of(&case.nodes, &case.ctls);
     let built_c = catch(|| GenApiBuilder::<DefaultNodeStore>::default().build(&xml));
     let built_u = catch(|| GenApiBuilder::<DefaultNodeStore>::default().no_cache().build(&xml));
     let ((_, store_c, mut cx_c), (_, store_u, mut cx_u)) = match (built_c, built_u) {
@@ -1256,7 +1626,12 @@ fn do_case(rep: &mut Report, case: &Case, src: &str, replay: Value) {
     let ru = run_hist(&eff, &ids_u, &store_u, &mut cx_u, &case.dev, &case.ops);
 
     let decl = declared(&eff);
-    let hist_ok = case.ops.iter().all(|op| !matches!(op, Op::PortWrite(..)) || port_declared(&eff, 0));
+    let (_, decl_hist) = declared_for_history(&eff, &case.ops);
+    let hist_ok = case.ops.iter().all(|op| match op {
+        Op::PortWrite(pn, ..) => port_declared(&eff, *pn),
+        _ => true,
+    });
+    let modelled = case.ctls.is_empty() && !case.ops.iter().any(|op| matches!(op, Op::IsReadable(_) | Op::IsWritable(_)));
     let g = graph_str(&eff);
     let d = dev_str(&case.dev);
     let o = ops_str(&case.ops);
@@ -1265,7 +1640,52 @@ fn do_case(rep: &mut Report, case: &Case, src: &str, replay: Value) {
     let nontrivial = rc.outs.iter().filter(|x| !matches!(x, Out::Err(_) | Out::Panic)).count() >= 3 && rc.log.iter().any(|a| a.write && a.ok);
     rep.case(&canon, nontrivial);
     rep.count(&format!("case/{src}"));
-    rep.count(if decl && hist_ok { "oracle:declared" } else if !decl { "oracle:undeclared-graph(tie only)" } else { "oracle:port-write-undeclared(tie only)" });
+    rep.count(if decl && hist_ok {
+        "oracle:declared"
+    } else if decl_hist && hist_ok {
+        "oracle:declared-via-feature"
+    } else if !decl_hist {
+        "oracle:undeclared-graph(tie only)"
+    } else {
+        "oracle:port-write-undeclared(tie only)"
+    });
+    if !modelled {
+        rep.count("tie:skipped(controllers / is_* queries are not in the model)");
+    }
+    {
+        // how much of the minimal declared set is placed where
+        let mut n_plain = 0;
+        let mut n_port = 0;
+        let mut n_other = 0;
+        for (w, t) in needed_pairs(&eff) {
+            if let (NodeSpec::Reg(rw), NodeSpec::Reg(rt)) = (&eff[w], &eff[t]) {
+                if rt.invs.contains(&w) {
+                    n_plain += 1
+                } else if rt.invs.contains(&rw.port) {
+                    n_port += 1
+                } else {
+                    n_other += 1
+                }
+            }
+        }
+        *rep.dist.entry("decl:needed-pairs(listing writer)".into()).or_insert(0) += n_plain;
+        *rep.dist.entry("decl:needed-pairs(listing port)".into()).or_insert(0) += n_port;
+        *rep.dist.entry("decl:needed-pairs(feature only or missing)".into()).or_insert(0) += n_other;
+    }
+    // selector values actually used for addresses (distribution of the selector-addressed reads)
+    for a in rc.log.iter().filter(|a| !a.write && a.ok) {
+        for n in eff.iter() {
+            if let NodeSpec::Reg(r) = n {
+                if let Some((_, off)) = r.sel {
+                    if off != 0 && a.len as u64 == r.len && (a.addr - r.base) % off == 0 {
+                        let k = (a.addr - r.base) / off;
+                        rep.count(if (0..4).contains(&k) { "sel:value 0..3" } else if (4..256).contains(&k) { "sel:value 4..255" } else { "sel:value other" });
+                        break;
+                    }
+                }
+            }
+        }
+    }
     if some_hit {
         rep.count("run:cache-served-a-read");
     }
@@ -1284,6 +1704,8 @@ fn do_case(rep: &mut Report, case: &Case, src: &str, replay: Value) {
             Op::PortWrite(..) => "port.write",
             Op::ClearCache => "clear_cache",
             Op::Address(_) => "reg.address",
+            Op::IsReadable(_) => "is_readable",
+            Op::IsWritable(_) => "is_writable",
         };
         let res = match out {
             Out::Err(e) => format!("err-{e}"),
@@ -1318,16 +1740,22 @@ fn do_case(rep: &mut Report, case: &Case, src: &str, replay: Value) {
     if rep.evaluations % 97 == 1 {
         rep.sample(json!({"request": format!("c04 default {p} {g} {d} {o}"), "impl": ac, "declared": decl}));
     }
-    rep.expect(format!("c04 default {p} {g} {d} {o}"), ac);
-    rep.expect(format!("c04 sink {p} {g} {d} {o}"), au);
-    rep.expect(format!("c04 decl {p} {g}"), format!("{} 0:{}", decl as u8, port_declared(&eff, 0) as u8));
+    if modelled {
+        rep.expect(format!("c04 default {p} {g} {d} {o}"), ac);
+        rep.expect(format!("c04 sink {p} {g} {d} {o}"), au);
+    }
+    let ports: Vec<String> = eff.iter().enumerate().filter(|(_, n)| matches!(n, NodeSpec::Port)).map(|(i, _)| format!("{i}:{}", port_declared(&eff, i) as u8)).collect();
+    rep.expect(format!("c04 decl {p} {g}"), format!("{} {}", decl as u8, ports.join(",")));
 }
 
 /// The property oracle on the implementation's own outputs (cached vs uncached twin).
 fn oracle(eff: &[NodeSpec], case: &Case, rc: &RunResult, ru: &RunResult, counts: &mut Vec<&'static str>) -> Vec<(Value, String)> {
     let mut out: Vec<(Value, String)> = vec![];
-    let decl = declared(eff);
-    let hist_ok = case.ops.iter().all(|op| !matches!(op, Op::PortWrite(..)) || port_declared(eff, 0));
+    let (_, decl) = declared_for_history(eff, &case.ops);
+    let hist_ok = case.ops.iter().all(|op| match op {
+        Op::PortWrite(pn, ..) => port_declared(eff, *pn),
+        _ => true,
+    });
     if decl && hist_ok {
         let mut bad: Option<(Value, String)> = None;
         if rc.outs != ru.outs {
@@ -1389,7 +1817,7 @@ fn oracle(eff: &[NodeSpec], case: &Case, rc: &RunResult, ru: &RunResult, counts:
 
 /// Build both contexts, run the history, return the oracle's findings (no reporting).
 fn findings_of(case: &Case) -> Vec<(Value, String)> {
-    let xml = xml_of(&case.nodes);
+    let xml = xml_of(&case.nodes, &case.ctls);
     let built_c = catch(|| GenApiBuilder::<DefaultNodeStore>::default().build(&xml));
     let built_u = catch(|| GenApiBuilder::<DefaultNodeStore>::default().no_cache().build(&xml));
     let ((_, store_c, mut cx_c), (_, store_u, mut cx_u)) = match (built_c, built_u) {
@@ -1494,10 +1922,21 @@ fn main() {
     let mut rng = Rng::new(args.seed);
     let n_cases = if args.thorough() { 30_000 } else { 3_000 };
     for i in 0..n_cases {
-        let undeclared = i % 5 == 4;
-        let case = gen_case(&mut rng, undeclared, args.thorough());
+        let stream = match i % 10 {
+            4 | 9 => Stream::Undeclared,
+            2 | 7 => Stream::Via,
+            5 => Stream::Ctl,
+            _ => Stream::Declared,
+        };
+        let case = gen_case(&mut rng, stream, args.thorough());
         let replay = case_to_json(&case);
-        do_case(&mut rep, &case, if undeclared { "undeclared-stream" } else { "declared-stream" }, replay);
+        let src = match stream {
+            Stream::Declared => "declared-stream",
+            Stream::Undeclared => "undeclared-stream",
+            Stream::Via => "via-feature-stream",
+            Stream::Ctl => "controller-stream",
+        };
+        do_case(&mut rep, &case, src, replay);
         if i % 2000 == 1999 {
             rep.flush_model(&args.camdrv);
         }
